@@ -267,7 +267,7 @@ def run(ctx) -> None:
             best_states_case(ctx, {"n": nn, "generator": g, "computer": comp2, "gap": rng.choice(list(GAP_FUNCTIONS)),
                                    "k": rng.randint(1, 3), "samples": rng.randint(1, 4 if quick else 5),
                                    "processes": [rng.choice(proc_choices)], "seed": rng.randint(0, 10**6),
-                                   "scale": rng.choice(sut.SCALES)}, logpath)
+                                   "scale": rng.choice([1.0, 1.0, 1e-10, 1e-10, 1e-7, 1e3, 1e6])}, logpath)
 
 
 def replay(ctx, case) -> None:
